@@ -777,8 +777,38 @@ def scope_tables(i):
     return p["_scope"]
 
 
+def imported_decls(p):
+    """{name bound by a module-level from-import of the main unit: declaration id in the exporting analysed file}"""
+    from vlib.gir_interp import Unit
+    extra = {k: Unit(v) for k, v in (p.get("extra_rows") or {}).items()}
+
+    def find(mod, name, depth=0):
+        u = extra.get(mod)
+        if u is None or depth > 4:
+            return None
+        for r in u.top:
+            if r["operation"] in ("method_decl", "class_decl", "variable_decl") and r.get("name") == name:
+                return r["stmt_id"]
+        for r in u.top:
+            if r["operation"] == "from_import_stmt" and (r.get("alias") or r.get("name")) == name:
+                return find(str(r.get("source")).split(".")[-1], r.get("name"), depth + 1)
+        return None
+    out = {}
+    for r in Unit(p["rows"]).top:
+        if r["operation"] == "from_import_stmt":
+            d = find(str(r.get("source")).split(".")[-1], r.get("name"))
+            if d is not None:
+                out[r.get("alias") or r.get("name")] = d
+    return out
+
+
 def scope_violation(i, args):
     lian, decls, unit_init = scope_tables(i)
+    p = BATCH["programs"][i]
+    if "_main_ids" not in p:
+        p["_main_ids"] = frozenset(r["stmt_id"] for r in p["rows"])
+        p["_imported"] = imported_decls(p)
+    main_ids, imported = p["_main_ids"], p["_imported"]
     problems = []
 
     def on_bind(act, owner, name):
@@ -788,12 +818,22 @@ def scope_violation(i, args):
         if cur is None:
             return
         sid = cur["stmt_id"]
+        if sid not in main_ids:
+            return                                  # occurrences inside the imported files are not judged (their tables are not attached)
         got = lian.get((sid, name))
         if got is None:
             return                                  # lian has no entry for this occurrence (not analysed): not judged here
         m = owner.method_id
         if owner is owner.module or owner.vars is owner.module.vars or m == unit_init:
             m = 0
+            unit_rows = getattr(getattr(owner.module, "unit", None), "by_id", None)
+            if unit_rows and next(iter(unit_rows)) not in main_ids:
+                return                              # a cell of another module's scope
+            if name in imported:
+                if got != {imported[name]}:
+                    problems.append(f"`{name}` at statement {sid} ({cur['operation']}) is imported: the language binds it to the declaration "
+                                    f"{imported[name]} in the exporting file, lian resolves it to {sorted(got)}")
+                return
         if owner.cls is not None and m not in (0,) and (m, name) not in decls:
             return                                  # class initialiser scope: class attributes are fields, judged by C08/C09
         want = decls.get((m, name))
